@@ -8,3 +8,5 @@ import SmVerif.Model.DriverStore
 import SmVerif.Model.DriverTwin
 import SmVerif.Model.DriverSketch
 import SmVerif.Model.DriverSeq
+import SmVerif.Model.DriverSelect
+import SmVerif.Model.DriverTax
